@@ -391,6 +391,33 @@ func runC01(op string, in []string) string {
 				return buf.Bytes(), err
 			}
 		}
+		// the exported package variables are knobs the caller may SET: an encoder created while
+		// ewkb.DefaultSRID (and ewkb.DefaultByteOrder) hold the case's values writes the same bytes
+		vs["DefaultSRIDVar"] = func() ([]byte, error) {
+			old := ewkb.DefaultSRID
+			ewkb.DefaultSRID = srid
+			defer func() { ewkb.DefaultSRID = old }()
+			var buf bytes.Buffer
+			err := ewkb.NewEncoder(&buf).SetByteOrder(o).Encode(g)
+			return buf.Bytes(), err
+		}
+		vs["DefaultVars"] = func() ([]byte, error) {
+			oldS, oldO := ewkb.DefaultSRID, ewkb.DefaultByteOrder
+			ewkb.DefaultSRID, ewkb.DefaultByteOrder = srid, o
+			defer func() { ewkb.DefaultSRID, ewkb.DefaultByteOrder = oldS, oldO }()
+			var buf bytes.Buffer
+			err := ewkb.NewEncoder(&buf).Encode(g)
+			return buf.Bytes(), err
+		}
+		vs["DefaultSRIDVarThenSet"] = func() ([]byte, error) {
+			// the variable at another value must not leak into an encoder given the SRID explicitly
+			old := ewkb.DefaultSRID
+			ewkb.DefaultSRID = srid + 1
+			defer func() { ewkb.DefaultSRID = old }()
+			var buf bytes.Buffer
+			err := ewkb.NewEncoder(&buf).SetByteOrder(o).SetSRID(srid).Encode(g)
+			return buf.Bytes(), err
+		}
 		// … whatever kind of writer the encoder was given
 		addWriterVariants(vs, data, "EncoderSetSRID", func(w io.Writer) error {
 			return ewkb.NewEncoder(w).SetByteOrder(o).SetSRID(srid).Encode(g)
@@ -610,6 +637,13 @@ func runC01(op string, in []string) string {
 				return "badwhich"
 			}
 			var out []string
+			// what the caller got for row i (s.Geometry and the destination's value: the slices themselves, not
+			// copies) is kept over the following rows and printed again after the last one
+			type keptRow struct {
+				sg, dv   orb.Geometry
+				sgs, dvs string
+			}
+			var kept []keptRow
 			for i := 0; i < n; i++ {
 				var in interface{}
 				switch k := r.next(); k {
@@ -651,6 +685,22 @@ func runC01(op string, in []string) string {
 					step += " dest-differs"
 				}
 				out = append(out, step)
+				kr := keptRow{sg: sg, sgs: gs(sg)}
+				if read != nil {
+					kr.dv = read()
+					kr.dvs = gs(kr.dv)
+				}
+				kept = append(kept, kr)
+				if b, ok := in.([]byte); ok { // database drivers reuse the row buffer: nothing kept may live in it
+					for j := range b {
+						b[j] ^= 0x5a
+					}
+				}
+			}
+			for i, kr := range kept {
+				if gs(kr.sg) != kr.sgs || (read != nil && gs(kr.dv) != kr.dvs) {
+					out[i] += " kept-changed"
+				}
 			}
 			return strings.Join(out, " ; ")
 		})
@@ -1017,6 +1067,27 @@ func genC01(c *Ctx) {
 		}
 	}
 
+	// rows of shrinking / equal / growing sizes into one typed destination (a destination whose storage were
+	// reused for the next row would change the value kept from the row before)
+	for _, w := range []string{"e", "p", "w"} {
+		fr := "raw"
+		if w == "p" {
+			fr = "prefix"
+		}
+		for _, d := range []string{"any", "LS", "MP", "MLS", "PG", "MPG", "C"} {
+			for _, sizes := range [][]int{{3, 2}, {3, 3}, {4, 1, 3, 2}, {1, 2, 2, 1}, {5, 0, 4, 5}} {
+				if !mine() {
+					continue
+				}
+				parts := []string{w, d, fmt.Sprint(len(sizes))}
+				for i, k := range sizes {
+					parts = append(parts, fmt.Sprintf("b %d %d %s 0 %s", i%2, []int{0, 4326, 3857}[i%3], fr, gs(c01SizedFor(d, k, float64(10*(i+1))))))
+				}
+				c.Case("scq", strings.Join(parts, " "))
+			}
+		}
+	}
+
 	// ---- random families
 	for k := 0; k < c.Budget && !c.Exhausted(); k++ {
 		mode := []CoordMode{CoordBits, CoordBits, CoordFloat, CoordSmallInt}[r.Intn(4)]
@@ -1084,4 +1155,58 @@ func genC01(c *Ctx) {
 			}
 		}
 	}
+}
+
+// c01SizedFor: a geometry a destination of kind d accepts, every slice in it of length k, coordinates from base on.
+func c01SizedFor(d string, k int, base float64) orb.Geometry {
+	pts := func(off float64) []orb.Point {
+		ps := make([]orb.Point, k)
+		for i := range ps {
+			ps[i] = orb.Point{base + off + float64(i), -(base + off) - float64(i)/2}
+		}
+		return ps
+	}
+	ring := func(off float64) orb.Ring {
+		ps := pts(off)
+		if k > 0 {
+			ps = append(ps, ps[0])
+		}
+		return orb.Ring(ps)
+	}
+	poly := func(off float64) orb.Polygon {
+		pg := make(orb.Polygon, k)
+		for i := range pg {
+			pg[i] = ring(off + float64(100*i))
+		}
+		return pg
+	}
+	switch d {
+	case "MP":
+		return orb.MultiPoint(pts(0))
+	case "MLS":
+		m := make(orb.MultiLineString, k)
+		for i := range m {
+			m[i] = orb.LineString(pts(float64(100 * i)))
+		}
+		return m
+	case "PG":
+		return poly(0)
+	case "MPG":
+		m := make(orb.MultiPolygon, k)
+		for i := range m {
+			m[i] = poly(float64(1000 * i))
+		}
+		return m
+	case "C":
+		m := make(orb.Collection, k)
+		for i := range m {
+			if i%2 == 0 {
+				m[i] = orb.LineString(pts(float64(100 * i)))
+			} else {
+				m[i] = orb.MultiPoint(pts(float64(100 * i)))
+			}
+		}
+		return m
+	}
+	return orb.LineString(pts(0))
 }
